@@ -389,8 +389,12 @@ class Lexer():
                         c = bytes([int(num_m.group(0))])
                         i += len(num_m.group(0))
                     else:
+                        hex_m = re.match(br'x([0-9a-fA-F]{2})', s[i+1:])
                         next_c = s[i+1:i+2]
-                        if next_c in _STRING_ESCAPES:
+                        if hex_m:
+                            c = bytes([int(hex_m.group(1), 16)])
+                            i += 3
+                        elif next_c in _STRING_ESCAPES:
                             c = _STRING_ESCAPES[next_c]
                             i += 1
 
